@@ -189,6 +189,10 @@ func RunRouter(run *RouterRun) (hist []Ev, aux []Ev, err error) {
 		if n := ppHeaderLen(run.Cfg); n > 0 {
 			// the stream begins with a PROXY header of exactly n units
 			hdr := MakeProxyHeader(n * run.Scale)
+			if n*run.Scale == 28 && run.Tag%2 == 1 {
+				// every other behaviour: a v1 "PROXY UNKNOWN ..." line of the same length (what follows UNKNOWN is ignored)
+				hdr = []byte("PROXY UNKNOWN 0123456789ab\r\n")
+			}
 			copy(stream, hdr)
 		}
 		rec := NewRecorder(stream)
